@@ -47,7 +47,7 @@ class FakeBoundsFrame:
     def __len__(self):
         return len(self.cols['x0'])
 
-    def to_numpy(self):
+    def to_numpy(self, dtype=None, copy=False, na_value=None):
         out = np.empty((len(self), 4), dtype=object)
         for j, c in enumerate(self.columns):
             out[:, j] = self.cols[c]
